@@ -100,7 +100,10 @@ def run_case(case, ctx):
         e_ok = C.resv(C.api(ctx, text, ts, max_stack_depth=0)) in exps
     except Exception:
         e_ok = False
-    fam = "%s/%s" % (case["dn"], _cfam(case["cn"]))
+    dcls = case["dn"].split("/")[0]
+    if dcls == "abs":
+        dcls = "abs-named" if "Mon" in case["dn"] else "abs-numeric"
+    fam = "%s/%s" % (dcls, _cfam(case["cn"]))
     sig = ("beam-truncation/" + fam) if e_ok else "wrong/%s/%s" % (fam, what)
     return C.viol(sig, "%r at %s: day alone %s, clock alone %s, together %s via %s" % (text, ts, V.show(dv), V.show(cv), V.show(got), C.obs(r)), key, cls)
 
